@@ -31,9 +31,18 @@ SCOPES = ['signature_extensions', 'check_template']
 CALLS = []
 
 
+def _consume_template_args(tape, stack):
+    """a check_template plugin "takes the same arguments as an op": the template on top, the sigfield beneath - and consumes them, as
+    the repository's own example plugins do (the template call hands over an empty tape)"""
+    if tape.data == b'':
+        stack.get()
+        stack.get()
+
+
 def _mk(i):
     def plug(tape, stack, cache):
         CALLS.append(('p', i))
+        _consume_template_args(tape, stack)
         return True
     plug.__name__ = 'plug%d' % i
     return plug
@@ -45,6 +54,7 @@ class _Ext:
 
     def on(self, tape, stack, cache):
         CALLS.append(('p', 2))
+        _consume_template_args(tape, stack)
         return True
 
 
@@ -61,6 +71,7 @@ def _mk_oneshot(scope, idx):
         # a run-once hook: takes itself out of the registry when it is invoked
         CALLS.append(('p', idx))
         F.remove_plugin(scope, oneshot)
+        _consume_template_args(tape, stack)
         return True
     oneshot.__name__ = 'oneshot_' + scope
     return oneshot
@@ -98,7 +109,7 @@ class Con1:
 CONS = [Con0(), Con1()]
 CIDS = [b'\x01' * 4, b'\x02' * 4]
 IFACES = [HasFoo, F.CanBeInvoked]
-ALIASES = [('ZZA', 'OP_TRUE'), ('ZZB', 'OP_FALSE')]
+ALIASES = [('ZZA', 'OP_TRUE'), ('ZZB', 'OP_FALSE'), ('ZZW', 'OP_IF')]      # an ordinary op twice, and a block construct
 
 
 def _blk(b):
@@ -129,6 +140,7 @@ SOURCES.append(('macro2-two-params', '!= m [ a b ] { push b push a } !m [ x05 x0
 SOURCES.append(('macro2-twice', '!= m [ a ] { push a } !m [ x05 ] !m [ x06 ]', bytes([2, 5, 2, 6])))
 SOURCES.append(('variables2', '@= v [ x02 ] @v', bytes([2, 2, C['OP_WRITE_CACHE'], 1]) + b'v' + bytes([1, C['OP_READ_CACHE'], 1]) + b'v'))
 SOURCES.append(('comptime2', 'push ~ { false }', bytes([2, C['OP_FALSE']])))
+SOURCES.append(('alias-block', 'true zzw { dup }', 'alias-block'))
 SOURCES.append(('comptime3', 'push ~ { true true }', bytes([3, 2, C['OP_TRUE'], C['OP_TRUE']])))
 ENTRY = ['compile_script', 'Script.from_src', 'assemble', 'parse_comptime+assemble']
 
@@ -237,7 +249,7 @@ class Interp:
         self.ifaces.discard(IFACES[j % 2].__name__)
 
     def op_alias(self, k):
-        a, opn = ALIASES[k % 2]
+        a, opn = ALIASES[k % len(ALIASES)]
         try:
             F.add_alias(a, opn)
             if a in self.aliases:
@@ -295,6 +307,8 @@ class Interp:
             entry = 'assemble'
         if exp == 'alias':
             exp = bytes([C['OP_TRUE'], C['OP_FALSE']]) if ('ZZA' in self.aliases and 'ZZB' in self.aliases) else None
+        if exp == 'alias-block':
+            exp = bytes([C['OP_TRUE'], C['OP_IF'], 0, 1, C['OP_DUP']]) if 'ZZW' in self.aliases else None
         try:
             if entry == 'compile_script':
                 got = P.compile_script(src)
@@ -388,15 +402,17 @@ def alphabets():
     A['contracts+interfaces'] = ([['addc', 0], ['addc', 1], ['remc', 0], ['remc', 1], ['addi', 0], ['remi', 0], ['addi', 1],
                                   ['remi', 1], ['run', 1]])
     A['compile+aliases'] = ([['compile', si, ei] for si in range(NBASE) for ei in (0, 2, 3)] + [['compile', 1, 1], ['alias', 0], ['alias', 1]])
+    A['aliases-of-block-ops'] = [['alias', 2], ['alias', 0], ['compile', [n for n, _, _ in SOURCES].index('alias-block'), 0],
+                                 ['compile', [n for n, _, _ in SOURCES].index('alias-block'), 1], ['compile', 3, 0]]
     A['compile-purity'] = [['compile', si, ei] for si in range(NBASE, len(SOURCES)) for ei in (0, 1)] + [['compile', 1, 0]]
     return A
 
 
 def task_enumerate(ctx):
     A = alphabets()
-    maxlen = {'plugins:' + SCOPES[0]: 5, 'plugins:' + SCOPES[1]: 5, 'contracts+interfaces': 5, 'compile+aliases': 3, 'compile-purity': 2}
+    maxlen = {'plugins:' + SCOPES[0]: 5, 'plugins:' + SCOPES[1]: 5, 'contracts+interfaces': 5, 'compile+aliases': 3, 'compile-purity': 2, 'aliases-of-block-ops': 4}
     if ctx.thorough():
-        maxlen = {'plugins:' + SCOPES[0]: 6, 'plugins:' + SCOPES[1]: 6, 'contracts+interfaces': 5, 'compile+aliases': 4, 'compile-purity': 3}
+        maxlen = {'plugins:' + SCOPES[0]: 6, 'plugins:' + SCOPES[1]: 6, 'contracts+interfaces': 5, 'compile+aliases': 4, 'compile-purity': 3, 'aliases-of-block-ops': 5}
     idx = 0
     for name, alpha in A.items():
         n = 0
@@ -460,7 +476,7 @@ def make_machine(ctx):
         def remi(self, j):
             self._go(['remi', j])
 
-        @rule(k=st.integers(0, 1))
+        @rule(k=st.integers(0, 2))
         def alias(self, k):
             self._go(['alias', k])
 
